@@ -214,6 +214,13 @@ def run_case(case):
                     import shutil
 
                     shutil.rmtree(out, ignore_errors=True)
+    # ---- classification: does the codec library alone, without any py7zr code, grow like this?
+    for v in viol:
+        if v["key"].startswith("rss/write/"):
+            lib = "pyppmd" if "PPMD" in case["chain"] else ("inflate64" if "DEFLATE64" in case["chain"] else None)
+            if lib and _encoder_alone_grows(lib, case["texture"]):
+                v["key"] = "codec-library/%s-encoder-memory" % lib
+                v["what"] = "the %s encoder alone (no py7zr code) retains about as much memory as it is fed for %s data; symptom here: %s" % (lib, case["texture"], v["what"])
     sample = {"chain": case["chain"], "texture": case["texture"], "mib": case["mib"], "position": case["position"], "peak_rise_mib": peaks, "archive_mib": obs.get("archive_mib")}
     obs["max_peak_rise_mib"] = max(peaks.values()) if peaks else 0
     if viol:
@@ -222,6 +229,33 @@ def run_case(case):
             seen.setdefault(v["key"], v)
         return K.result("violated", violations=list(seen.values()), cells=cells, obs=obs, sample=sample)
     return K.result("held", cells=cells, obs=obs, sample=sample)
+
+
+def _encoder_alone_grows(lib, texture, mib=192) -> bool:
+    """Feed the third-party encoder 1 MiB blocks directly and watch the RSS: True when it rises by more
+    than half of what was fed (classification of a write-phase violation only)."""
+    from vf.core import worker as WK
+
+    src = GenStream(mib << 20, texture, seed=7)
+    if lib == "pyppmd":
+        import pyppmd
+
+        enc = pyppmd.Ppmd7Encoder(2, 1 << 20)
+        feed = enc.encode
+    else:
+        import inflate64
+
+        enc = inflate64.Deflater()
+        feed = enc.deflate
+    r0 = WK.rss_now_kb()
+    for _ in range(mib):
+        feed(src.read(1 << 20))
+    rise = (WK.rss_now_kb() - r0) // 1024
+    try:
+        enc.flush()
+    except Exception:
+        pass
+    return rise > mib // 2
 
 
 def on_abnormal(case, kind, info):
